@@ -165,7 +165,7 @@ Lemma back_enter_exit_point fuel s ev ety rn g :
     (Some tt, rn, Glob (Cb KEntry [] s ev false (act rn) :: g_tr g) (S (g_cb g)) [] (g_val g)
                        (g_up g ++ [Evt ety (e_pay ev)]) (g_bad g)).
 Proof.
-  intros Hc Hk Hp Hu. unfold exec_entry. rewrite Hc, Hk. apply Nat.eqb_neq in Hu. rewrite Hu. cbn [negb].
+  intros Hc Hk Hp Hu. unfold exec_entry, exec_entry_gen. rewrite Hc, Hk. apply Nat.eqb_neq in Hu. rewrite Hu. cbn [negb].
   destruct g as [tr cbn0 plan val up bad]. cbn in Hp. subst.
   unfold cb, callback, callback_at, bind, get, getg, putg, ret, push_up. cbn. reflexivity.
 Qed.
